@@ -120,6 +120,8 @@ def proj_supply(op, line):
 PROJECTIONS = {
     "all": proj_all,
     "status": proj_status,
+    # accept/reject of everything, and the bytes of the standard covenants
+    "status_std": proj_by_op({"std": ("all",)}, default=("status",)),
     "supply": proj_supply,
     "counts": proj_by_op({k: ("counts", "extra") for k in ["fab", "genesis", "next", "batch", "seal", "block", "restore"]}),
     "feemult": proj_by_op({"seal": ("fm",), "fm": ("all",), "next": ("fm",), "block": ("fm",)}, default=("none",)),
